@@ -883,6 +883,12 @@ class Interp:
                 o = good.get(tk)
                 if o is None or c.c < o.c:
                     good[tk] = c
+        eqonly = getattr(self, '_eqonly', set()) - getattr(self, '_ineq', set())
+        for tk, c in list(good.items()):
+            if c.key() in eqonly:
+                ng = good.get(c.neg().key()[1])
+                if ng is None or ng.c != -c.c:
+                    del good[tk]
         # equalities among kept candidates define a head symbol in terms of others: eliminate it, so that
         # e.g. current_state = &state[depth-1] is carried syntactically
         elim = {}
@@ -927,11 +933,14 @@ class Interp:
                 good[('hi', x)] = expr.neg().add(hi)
                 headsyms.discard(x)
             H.tags['_elim'] = dict(elim)
+        import os
         for c in good.values():
             if elim:
                 c = c.subst(elim)
                 if not c.t:
                     continue
+            if os.environ.get('ABSINT_KEPT') and os.environ['ABSINT_KEPT'] in repr(c):
+                print('   [kept] %r (elim=%r)' % (c, elim))
             S.assume_ge0(c, propagate=False)
             kept += 1
         S._propagate(set(headsyms))
@@ -1005,10 +1014,22 @@ class Interp:
 
     def candidates(self, H, states, sig, places, common, houdini=False):
         cands = {}
+        self._eqonly = set()
+        self._ineq = set()
 
         def add(e):
             if e.t:
                 cands.setdefault(e.key(), e)
+                self._ineq.add(e.key())
+
+        def addeq(e):
+            # an equality family: useful only if both directions survive
+            if e.t:
+                n_ = e.neg()
+                cands.setdefault(e.key(), e)
+                cands.setdefault(n_.key(), n_)
+                self._eqonly.add(e.key())
+                self._eqonly.add(n_.key())
         hsyms = [p[1] for p in places]
         hset = set(hsyms)
         # (i) rewrite the relational constraints of each state through its place values:
@@ -1076,10 +1097,15 @@ class Interp:
             if not newset:
                 return list(cands.values())
         add0 = add
+        addeq0 = addeq
 
         def add(e):
             if any(x in newset for x in e.t):
                 add0(e)
+
+        def addeq(e):
+            if any(x in newset for x in e.t):
+                addeq0(e)
         # (ii) two-point affine relations between pairs of head symbols
         if len(states) >= 2:
             for ai in range(len(hsyms)):
@@ -1094,8 +1120,7 @@ class Interp:
                         if dx.is_const() and dy.is_const() and (dx.c or dy.c):
                             # dy*(X - x0) = dx*(Y - y0)
                             e = Aff.sym(x, dy.c).sub(x0.mul(dy.c)).sub(Aff.sym(y, dx.c)).add(y0.mul(dx.c))
-                            add(e)
-                            add(e.neg())
+                            addeq(e)
                             break
         # (ii-b) both places affine in one shared symbol within some state: eliminate that symbol
         for i, s in enumerate(states):
@@ -1111,8 +1136,7 @@ class Interp:
                     for bi in range(ai + 1, len(lst)):
                         (x, a1, c1), (y, a2, c2) = lst[ai], lst[bi]
                         e = Aff.sym(x, a2).sub(Aff.sym(y, a1)).sub(a2 * c1 - a1 * c2)
-                        add(e)
-                        add(e.neg())
+                        addeq(e)
         # (vi) a place that is `y + something` in every state, y a common symbol: keep the range of that something
         for x in hsyms:
             a0 = sig[0][x]
@@ -1146,8 +1170,7 @@ class Interp:
                     continue
                 if all(sig[i][x].sub(sig[i][y]) == d0 for i in range(1, len(states))):
                     e = Aff.sym(x).sub(Aff.sym(y)).sub(d0)
-                    add(e)
-                    add(e.neg())
+                    addeq(e)
         # (vii) progress relative to the values recorded at the enclosing loop heads (needed by ranking arguments)
         anchors = {}
         for tk, snap in states[0].tags.items():
@@ -1169,8 +1192,7 @@ class Interp:
             x0 = sig[0][x]
             if x0.t and all(z in common for z in x0.t):
                 e = Aff.sym(x).sub(x0)
-                add(e)
-                add(e.neg())
+                addeq(e)
         # (iii) templates between same-width int places (head symbols, unchanged cells, live SSA values)
         unchanged = {}
         for rname, cells in H.mem.items():
@@ -1202,8 +1224,7 @@ class Interp:
                         if c == a or c == b:
                             continue
                         e = Aff.sym(wide[a]).add(Aff.sym(wide[b])).sub(Aff.sym(wide[c]))
-                        add(e)
-                        add(e.neg())
+                        addeq(e)
         return list(cands.values())
 
     # ---- coverage ---------------------------------------------------------------------------------------------
